@@ -630,6 +630,7 @@ pub fn run_c14(tier: Tier) -> i32 {
     // every comment text (incl. texts that look like IDL) on every commentable position
     plan.push(("comment-texts/<=1member,<=2fields,budget0", RoundTrip { gen: Gen { rotate: true, ..g(1, 2, 0, 1, 1) }, exchange: false }));
     plan.push(("exchange/comment-texts/<=1member,<=1field,budget0", RoundTrip { gen: Gen { rotate: true, ..g(1, 1, 0, 1, 1) }, exchange: true }));
+    plan.push(("exchange/names/<=1member,<=1field,budget1", RoundTrip { gen: g(1, 1, 1, 0, IFACE_NAMES.len()), exchange: true }));
     plan.push(("long-lists/<=2members,<=1field,budget0", RoundTrip { gen: Gen { wide: true, ..g(2, 1, 0, 1, 1) }, exchange: false }));
     plan.push(("long-lists-plain/<=2members,<=1field,budget0", RoundTrip { gen: Gen { wide: true, ..g(2, 1, 0, 0, 1) }, exchange: true }));
     if tier == Tier::Thorough {
